@@ -193,3 +193,18 @@ Theorem subgraph_truncation_partial K A ci ks i :
   eval_v prims n (t_subgraph_trunc K) (pm p A) (pv p ci) ks i == eval_v prims n (t_subgraph_trunc K) A ci ks (p i).
 Proof. apply (measure_equivariant_vector prims prims_proper n p Hp). Qed.
 End Equations.
+
+(* ---------- (d) the property as a predicate on measures ---------- *)
+(* C04 for one measure f (size, matrix, label vector, parameters |-> scalar / vector / matrix):
+   for EVERY size, EVERY renumbering and EVERY input, f of the renumbered network is the renumbered f *)
+Definition equivariant_measure (f : nat -> mat Q -> vec Q -> list Q -> res) : Prop :=
+  forall n p, perm_on n p -> forall A ci ks,
+  match f n (pm p A) (pv p ci) ks, f n A ci ks with
+  | RS a, RS b => a == b
+  | RV u, RV v => forall i, u i == v (p i)
+  | RM M', RM M => forall i j, M' i j == M (p i) (p j)
+  | _, _ => False
+  end.
+Theorem every_term_measure_equivariant : forall prims, (forall k a b, a == b -> prims k a == prims k b) ->
+  forall pr, equivariant_measure (fun n => eval prims n pr).
+Proof. intros prims Hpr pr n p Hp A ci ks. exact (eval_rel prims Hpr n p Hp pr A ci ks). Qed.
